@@ -54,11 +54,16 @@ Sized(t, k, v) ==
     [] k = "upper"      -> [BaseMsg(t) EXCEPT !.age = 0 - v]
 Types == {"EVENT", "REQ", "COUNT", "CLOSE", "AUTH"}
 
+\* Extreme stands for the far end of the int64 range of created_at (age Extreme: the oldest possible
+\* timestamp, age -Extreme: the newest); the harness maps it, TLC integers being 32 bit
+Extreme == 2000000000
 SingleCases == {[stack |-> <<Mw(k, l)>>, m |-> Sized(t, k, v), d |-> Decide(Mw(k, l), Sized(t, k, v))] :
-                  k \in Kinds, l \in {1, 2, 5, 60, 3600}, t \in Types, v \in {0, 1, 2, 3, 4, 5, 6, 55, 65, 3595, 3605}}
+                  k \in Kinds, l \in {1, 2, 5, 60, 3600}, t \in Types, v \in {0, 1, 2, 3, 4, 5, 6, 55, 65, 3595, 3605, Extreme, 0 - Extreme}}
 RelevantSingle == {c \in SingleCases : c.stack[1].l \in LimitVals(c.stack[1].k) /\ c.m[CASE c.stack[1].k = "maxfilters" -> "nf" [] c.stack[1].k = "maxlimit" -> "lim"
                       [] c.stack[1].k = "maxsubid" -> "subl" [] c.stack[1].k = "maxtags" -> "ntags" [] c.stack[1].k = "maxcontent" -> "clen" [] OTHER -> "age"]
-                      \in (IF c.stack[1].k = "upper" THEN {0 - x : x \in Around(c.stack[1].k, c.stack[1].l)} ELSE Around(c.stack[1].k, c.stack[1].l))
+                      \in (IF c.stack[1].k = "upper" THEN {0 - x : x \in Around(c.stack[1].k, c.stack[1].l) \cup {Extreme, 0 - Extreme}}
+                           ELSE IF c.stack[1].k = "lower" THEN Around(c.stack[1].k, c.stack[1].l) \cup {Extreme, 0 - Extreme}
+                           ELSE Around(c.stack[1].k, c.stack[1].l))
                       /\ (c.stack[1].k \in {"maxfilters"} => c.m.nf >= 1) /\ (c.stack[1].k = "maxsubid" => c.m.subl >= 0)}
 
 \* stacks of two different middlewares, both orders, message violating none / one / both
